@@ -465,3 +465,44 @@ where
     ConnectionError(Option<ConnectionError>),
     Request(#[pin] S::Future),
 }
+
+#[cfg(feature = "verif-hooks")]
+impl<T, P, S, BIn, K> ConnectionPoolService<T, P, S, BIn, K>
+where
+    T: Transport,
+    P: Protocol<T::IO, BIn>,
+    P::Connection: PoolableConnection<BIn>,
+    BIn: Send + 'static,
+    K: pool::Key,
+{
+    /// Read-only snapshot of the pool tables (verification seam).
+    pub fn verif_pool_snapshot(
+        &self,
+        describe: &dyn Fn(&P::Connection) -> String,
+    ) -> Option<crate::verif_hooks::PoolSnapshot> {
+        self.pool.as_ref().map(|pool| pool.verif_snapshot(describe))
+    }
+}
+
+#[cfg(feature = "verif-hooks")]
+impl<T, P, C, S, BIn, BOut> ResponseFuture<T, P, C, S, BIn, BOut>
+where
+    T: Transport + Send + 'static,
+    P: Protocol<T::IO, BIn, Connection = C> + Send + 'static,
+    C: Connection<BIn> + PoolableConnection<BIn>,
+    S: tower::Service<ExecuteRequest<Pooled<C, BIn>, BIn>, Response = http::Response<BOut>>
+        + Send
+        + 'static,
+    BIn: Send + 'static,
+{
+    /// Read-only description of the stage this future is in (verification seam).
+    pub fn verif_stage(&self) -> String {
+        match &self.inner {
+            ResponseFutureState::Checkout {
+                checkout, request, ..
+            } => format!("{} req={}", checkout.verif_stage(), request.is_some()),
+            ResponseFutureState::ConnectionError(e) => format!("error[{}]", e.is_some()),
+            ResponseFutureState::Request(_) => "request".to_string(),
+        }
+    }
+}
